@@ -146,7 +146,7 @@ def bind(ids):
 
 MUST_FAIL = [("MC_Bip39", "MC_Bip39_Range.cfg"), ("MC_Eip712", "MC_Eip712_early_exit.cfg"),
              ("MC_Eip712", "MC_Eip712_primary_included.cfg"), ("MC_Domain", "MC_Domain_fresh_iterator.cfg"),
-             ("MC_Domain", "MC_Domain_first_only.cfg")]
+             ("MC_Domain", "MC_Domain_first_only.cfg"), ("MC_Args", "MC_Args_naive.cfg")]
 # (MC_Wallet carries its own anti-vacuity ASSUMEs: TLC's coverage instrumentation runs out of memory on it)
 COVERAGE = [("MC_Vanity", "MC_Vanity_N0.cfg"), ("MC_Vanity", "MC_Vanity_N2.cfg"), ("MC_Eip712", "MC_Eip712.cfg"),
             ("MC_Domain", "MC_Domain.cfg"), ("MC_Bip39", "MC_Bip39.cfg")]
